@@ -433,18 +433,32 @@ func isInlineLineComment(pc FmtComment) bool {
 // inlineLineCommentsAsBlocks rewrites the `#`/`//` comments at inline placeholders as block comments,
 // except the one with index keep (-1: none is kept).
 func inlineLineCommentsAsBlocks(c FmtCase, keep int) (string, bool) {
-	src := c.Src
+	// the comments are listed in source order: walk the text with a cursor so that equal comment texts
+	// (the special comments are drawn from a small pool) are told apart
+	var b strings.Builder
+	cur := 0
 	for i, pc := range c.Comments {
+		at := strings.Index(c.Src[cur:], pc.Text)
+		if at < 0 {
+			return "", false
+		}
+		at += cur
+		end := at + len(pc.Text)
 		if !isInlineLineComment(pc) || i == keep {
+			b.WriteString(c.Src[cur:end])
+			cur = end
 			continue
 		}
 		body := strings.TrimLeft(pc.Text, "#/")
-		if strings.Contains(body, "*/") || strings.Count(src, pc.Text+"\n") != 1 {
+		if strings.Contains(body, "*/") || !strings.HasPrefix(c.Src[end:], "\n") {
 			return "", false
 		}
-		src = strings.Replace(src, pc.Text+"\n", "/*"+body+" */\n", 1)
+		b.WriteString(c.Src[cur:at])
+		b.WriteString("/*" + body + " */")
+		cur = end
 	}
-	return src, true
+	b.WriteString(c.Src[cur:])
+	return b.String(), true
 }
 
 // c03Holds: the C03 oracle on one source: formats, parses again, same normal form — or the failure
@@ -657,7 +671,19 @@ func idemKeyBySignature(c FmtCase, out1, out2 string) string {
 		// only the order of lines (and white space) differs
 		return "fmt.sorted-property-groups-unstable"
 	}
+	if c.Conf.SortDeclarationProperty && sortedWords(out1) == sortedWords(out2) {
+		// entries that span lines (comments between key and value) moved: the same words in another order
+		return "fmt.sorted-property-groups-unstable"
+	}
 	return ""
+}
+
+var reBlankColon = regexp.MustCompile(`[ \t]+:`)
+
+func sortedWords(s string) string {
+	ws := strings.Fields(reBlankColon.ReplaceAllString(s, ":")) // (alignment padding in front of a table colon)
+	sort.Strings(ws)
+	return strings.Join(ws, " ")
 }
 
 func noWS(s string) string {
